@@ -81,12 +81,7 @@ class World:
         # requests (decoys) refill in place between the cases
         self.codes = (decoy.caller_table() if rnd.random() < 0.5 else dict(default_codes())) if codes is None else codes
         self.parser_codes = self.codes        # the table handed to the code (may be the code's own parse of a text)
-        self.name2id = {}
-        self.name_ids = {}            # a supplied table may give one name to several ids: all of them decode
-        for i, n in self.codes.items():
-            if i & 3 == 0:
-                self.name2id.setdefault(n, i)
-                self.name_ids.setdefault(n, []).append(i)
+        self._derive(codes is None)
         self.tids = {}
         self.rtids = {}
         self.big_tids = big_tids
@@ -95,6 +90,25 @@ class World:
         if not allow_zero_tid:      # log records: thread id 0 means "no thread" there, the abstraction keeps 0 for it
             self.zero_tid = None
         self.code_ids = {}
+        self.unknown_ids = []
+        while len(self.unknown_ids) < 8:
+            c = (rnd.getrandbits(30) << 2) & 0xfffffffc
+            if c not in self.codes and not (0x1320008 <= c <= 0x1320014):
+                self.unknown_ids.append(c)
+
+    _DERIVED = {}     # of the BUNDLED table (its contents never change; read-only structures shared by the worlds)
+
+    def _derive(self, bundled):
+        """name -> id(s), decoders per class, the named-but-undecoded codes: functions of the table's contents"""
+        if bundled and World._DERIVED:
+            self.__dict__.update(World._DERIVED)
+            return
+        self.name2id = {}
+        self.name_ids = {}            # a supplied table may give one name to several ids: all of them decode
+        for i, n in self.codes.items():
+            if i & 3 == 0:
+                self.name2id.setdefault(n, i)
+                self.name_ids.setdefault(n, []).append(i)
         self.by_cls = {}
         for n, a in AUDIT.items():
             if n in self.name2id and a.get('cls'):
@@ -108,11 +122,8 @@ class World:
         hsub = {self.name2id[n] >> 16 for n in handled if n in self.name2id}
         self.trace_known = [n for n in self.known_names if self.name2id[n] >> 24 == 7]
         self.near_known = [n for n in self.known_names if self.name2id[n] >> 16 in hsub and self.name2id[n] >> 24 != 7]
-        self.unknown_ids = []
-        while len(self.unknown_ids) < 8:
-            c = (rnd.getrandbits(30) << 2) & 0xfffffffc
-            if c not in self.codes and not (0x1320008 <= c <= 0x1320014):
-                self.unknown_ids.append(c)
+        if bundled:
+            World._DERIVED = {k: getattr(self, k) for k in ('name2id', 'name_ids', 'by_cls', 'known_names', 'trace_known', 'near_known')}
 
     # ---- maps
     def ctid(self, t):
